@@ -5,7 +5,8 @@ CFG = dict(
     id="C09", tie="Tie.C09", n_quick=1700, n_thorough=14000, thorough_seeds=3, gen_timeout=2400,
     rule="real stores in temp dirs, one per configuration (tx header version 0/1 x values embedded / one value log / "
          "several value logs, file sizes 128..4096 so that records span chunk files, tx and key metadata, empty values, "
-         "a flate-compressed value log; four of the seven with a value cache, VLogCacheSize = 64), 4-5 small "
+         "a flate-compressed value log; four with a value cache, VLogCacheSize = 64; one whose tx log holds the dead record of a "
+         "discarded pre-committed transaction between committed ones), 4-5 small "
          "transactions each; closed; then one COPY of the directory per "
          "corruption: for every offset class of every committed record (each header field, MdLen/Md, NEntries, per "
          "entry mdLen/md/kLen/key/vLen/vOff/hVal, trailing Alh) single-bit flips, one byte set to a boundary value, the "
